@@ -190,6 +190,7 @@ class Row(Vector):
 class Table(Vector):
 	""" Multiple columns of the same length """
 	_length = None
+	_column_map = None  # class-level default: __getattr__ must not recurse on a half-built instance (copy/deepcopy)
 	_repr_rows = None  # Optional table-specific repr row count override
 	
 	def __new__(cls, initial=(), dtype=None, name=None, as_row=False):
@@ -348,7 +349,8 @@ class Table(Vector):
 		
 		else:
 			# Regular access: look up by sanitized name
-			col_idx_lookup = self._column_map.get(attr) or self._column_map.get(attr.lower())
+			column_map = self._column_map or {}
+			col_idx_lookup = column_map.get(attr) or column_map.get(attr.lower())
 			if col_idx_lookup is not None:
 				return self._underlying[col_idx_lookup]
 		
